@@ -117,7 +117,7 @@ func runCheck(prop, tier string, seed int, t0 time.Time) int {
 	loadS := time.Since(t0).Seconds()
 	scratch, _ := os.MkdirTemp("", "govc-"+prop+"-")
 	defer os.RemoveAll(scratch)
-	timeout := 10
+	timeout := 20
 	two := false
 	if tier == "thorough" {
 		timeout = 60
@@ -276,6 +276,25 @@ func runCheck(prop, tier string, seed int, t0 time.Time) int {
 	if tier == "thorough" && os.Getenv("GOVC_NO_SELFTEST") == "" && os.Getenv("GOVC_REPO") == "" {
 		mutantEv = runSelftest(prop)
 	}
+	// slowest discharged obligations (stability watch: anything near the limit should be split or strengthened)
+	var allObl []*Oblig
+	for _, r := range res {
+		if r.Enc != nil {
+			for _, o := range r.Enc.obls {
+				if o.Status == "proved" && o.Solver != "trivial" {
+					allObl = append(allObl, o)
+				}
+			}
+		}
+	}
+	sort.Slice(allObl, func(i, j int) bool { return allObl[i].TimeS > allObl[j].TimeS })
+	var slowest []map[string]interface{}
+	for i, o := range allObl {
+		if i >= 8 {
+			break
+		}
+		slowest = append(slowest, map[string]interface{}{"function": o.Fn, "obligation": o.Name, "time_s": round2(o.TimeS), "solver": o.Solver})
+	}
 	trusted := sortedKeys(assumptions)
 	trusted = append(trusted,
 		"go/packages + go/ssa (x/tools v0.29.0) SSA construction",
@@ -297,6 +316,7 @@ func runCheck(prop, tier string, seed int, t0 time.Time) int {
 		"not_proved":               obligNames(failures),
 		"per_query_timeout_s":      timeout,
 		"bounded":                  boundedEv,
+		"slowest_obligations":      slowest,
 		"must_fail_mutants":        mutantEv,
 		"explanation":              "Each obligation is a verification condition generated from go/ssa of /repo's working tree for a function under contract (contracts: zz_contracts_verif.go in the package, tag verif); discharged = negated goal unsat.",
 	}
